@@ -180,6 +180,10 @@ def rng_tau(c):
 
 def make_model(c):
     box = {name: dom for name, kind, dom in c.params if kind in ('box', 'intbox')}
+    # the prior support is bounded for the unbounded kinds too (far away): on an unbounded flat target an
+    # always-accepted adaptive eigenvector proposal runs its covariance up until it overflows, which is
+    # neither this suite's subject nor within C14's hypothesis (bounded prior support)
+    box.update({name: (-1048576.0, 1048576.0) for name, kind, dom in c.params if kind in ('real', 'int')})
     ints = [name for name, kind, dom in c.params if kind in ('int', 'intbox')]
     return I.LoggedModel([p[0] for p in c.params], kind=c.model_kind, blobs=c.blobs, box=box, ints=ints,
                          reuse_blob=(c.seed % 3 == 0))
